@@ -518,7 +518,21 @@ fn fault_step(w: &mut World, ctx: &mut Ctx, st: &Step) -> StepResult {
                 return StepResult::Skipped;
             }
             ctx.fault("byzantine.misdeclare");
-            let msg = k.encrypt_with_digest(other.tagged_cbor().to_cbor_data(), to_lib_digest(&declared), None::<Nonce>);
+            // the content is another envelope's encoding, or something that is no envelope at all: nothing, one byte,
+            // half a tag, a cut-off encoding
+            let full = other.tagged_cbor().to_cbor_data();
+            let content: Vec<u8> = match st.arg(3) / 2 % 8 {
+                3 => vec![],
+                4 => vec![0xd8],
+                5 => vec![0xd8, 0xc8],
+                6 => full[..full.len() / 2].to_vec(),
+                7 => vec![(st.arg(3) >> 4) as u8],
+                _ => full,
+            };
+            if content.len() < 3 {
+                ctx.probe("misdeclare-degenerate-content");
+            }
+            let msg = k.encrypt_with_digest(content, to_lib_digest(&declared), None::<Nonce>);
             let forged_subject = match Envelope::try_from(msg) {
                 Ok(e) => e,
                 Err(_) => return StepResult::Skipped,
@@ -543,7 +557,10 @@ fn fault_step(w: &mut World, ctx: &mut Ctx, st: &Step) -> StepResult {
             match guarded(|| delivered.decrypt_subject(&k)) {
                 Ok(Ok(x)) => ctx.violate("C08.misdeclare", format!("a ciphertext whose plaintext (digest {}) does not hash to its declared digest {} was accepted", dhex(&digest_of(&other)), dhex(&digest_of(&delivered.subject())))),
                 Ok(Err(_)) => ctx.probe("misdeclare-refused"),
-                Err(p) => ctx.violate_sig("C16.no-panic", format!("decrypt of mis-declared content panicked: {}", p), p),
+                Err(p) => {
+                    ctx.violate_sig("C16.no-panic", format!("decrypt of mis-declared content panicked: {}", p), p.clone());
+                    ctx.violate_sig("C08.fault-panics", format!("decrypt of content that does not hash to its declared digest panicked instead of failing with an error: {}", p), p);
+                }
             }
             ctx.t("EncMisdeclare");
             ctx.shape_mix(om.shape_hash() ^ 0x28);
@@ -842,7 +859,7 @@ pub fn generate(property: &str, r: &mut SimRng, seed: u64) -> Scenario {
                 }
                 3..=5 => scn.push("EncTamper", &[ds(r), r.below(4), r.below(2), r.below(4), r.next() % 100000, r.below(6)]),
                 6..=7 => scn.push("EncBitflip", &[ds(r), r.below(4), r.below(2), r.next() % 1000000]),
-                _ => scn.push("EncMisdeclare", &[ds(r), ds(r), r.below(4), r.below(2)]),
+                _ => scn.push("EncMisdeclare", &[ds(r), ds(r), r.below(4), r.below(1 << 13)]),
             }
         } else {
             match r.below(10) {
